@@ -163,10 +163,13 @@ func fromProtoMethod(protoService *client_j5pb.Service, protoMethod *client_j5pb
 		}
 	}
 
-	responseSchema, err := convertObjectItem(protoMethod.ResponseBody)
-	if err != nil {
-		return nil, err
+	if protoMethod.ResponseBody != nil {
+		// no response body: the method returns a raw http body
+		responseSchema, err := convertObjectItem(protoMethod.ResponseBody)
+		if err != nil {
+			return nil, err
+		}
+		out.ResponseBody = responseSchema
 	}
-	out.ResponseBody = responseSchema
 	return out, nil
 }
